@@ -138,9 +138,9 @@ def handle (inp out : Sexp) : CaseResult :=
     | some h =>
     match out with
     | .list [.atom "out", .list (.atom "new" :: nw), .list (.atom "trace" :: sts), .list [.atom "rused", ru],
-             .list [.atom "eq", e]] =>
-      match nw.mapM decInstr, decQubits ru, decBool e with
-      | some fresh, some rused, some eq =>
+             .list [.atom "eq", e], .list [.atom "calq", cq]] =>
+      match nw.mapM decInstr, decQubits ru, decBool e, cq.asNat? with
+      | some fresh, some rused, some eq, some calq =>
         let tbl := h.instrs ++ fresh
         match sts.mapM (decState tbl) with
         | none => { agree := false, specOk := true, nontrivial := false, tags := ["undecodable-output"], detail := s!"impl={out}" }
@@ -156,7 +156,8 @@ def handle (inp out : Sexp) : CaseResult :=
           -- spec: the cache of the FINAL observed state is the qubit set of its listing, and the
           -- program equals the one rebuilt from its listing
           let invOk := match last with | some s => s.inv | none => false
-          let specOk := invOk && eq
+          -- calq: calibration definitions whose get_qubits is not identifier ++ body qubits
+          let specOk := invOk && eq && calq == 0
           let noLoss := h.noLoss
           let noStale := h.noStale
           let valid := h.valid
@@ -171,8 +172,8 @@ def handle (inp out : Sexp) : CaseResult :=
              if invB final then "inv" else "inv-broken"] ++ kf
           { agree, specOk, nontrivial, tags,
             detail := s!"model spine: {ps.map showProg} rebuilt.used={showQubits rebuilt.used} eq={progEq final rebuilt} | " ++
-              s!"impl trace: {states.map showState} rused={showQubits rused} eq={eq} new={showListing fresh} projOk={projOk}" }
-      | _, _, _ => { agree := false, specOk := true, nontrivial := false, tags := ["undecodable-output"], detail := s!"impl={out}" }
+              s!"impl trace: {states.map showState} rused={showQubits rused} eq={eq} new={showListing fresh} projOk={projOk} calqMismatches={calq}" }
+      | _, _, _, _ => { agree := false, specOk := true, nontrivial := false, tags := ["undecodable-output"], detail := s!"impl={out}" }
     | _ => { agree := false, specOk := true, nontrivial := false, tags := ["undecodable-output"], detail := s!"impl={out}" }
   | .list [.atom "pair", ax, bx] =>
     match decHist ax, decHist bx with
